@@ -371,7 +371,9 @@ where
         let (new_laidx, n_pstack) =
             self.parser
                 .lr_cactus(None, laidx, laidx + 1, n.pstack.clone(), &mut None);
-        if n.pstack != n_pstack {
+        // A shift can leave the stack looking exactly as it did before (e.g. the next element of a
+        // left-recursive list), so a changed stack is not the right test for "something happened".
+        if new_laidx > laidx || n.pstack != n_pstack {
             let n_repairs = if new_laidx > laidx {
                 n.repairs.child(RepairMerge::Repair(Repair::Shift))
             } else {
